@@ -3,6 +3,7 @@
 package bus
 
 import (
+	"sync"
 	"sync/atomic"
 
 	"github.com/lugu/qiloop/bus/net"
@@ -20,9 +21,14 @@ type zzObj struct {
 	id         uint32
 	live       bool
 	front      BasicObject
+	seenMu     sync.Mutex
+	seen       []*net.Message // every message handed to the user object, as it was handed over
 }
 
 func (o *zzObj) Receive(m *net.Message, from Channel) error {
+	o.seenMu.Lock()
+	o.seen = append(o.seen, m)
+	o.seenMu.Unlock()
 	if o.gate != nil && atomic.AddInt32(&o.gated, 1) == 1 {
 		<-o.gate
 	}
